@@ -1,12 +1,19 @@
 import Driver.Data
 import MockeryModel.Gen.Emit
 import MockeryModel.Gen.Discover
+import MockeryModel.Go.MethodSet
 open Lean Mockery.Go Mockery.Gen
 
 /-! C01 / C02: does the model predict that the generated file is well-formed? -/
 namespace Driver.C01
 
 def optBool (j : Json) (k : String) : Bool := (Driver.fldBool j k).toOption.getD false
+
+/-- the declaration tree of an interface (own method names, embedded interfaces) -/
+partial def declOfJson (j : Json) : IfaceDecl :=
+  let own := ((Driver.fldOpt j "own").bind (fun a => a.getArr?.toOption)).getD #[] |>.toList.filterMap (fun x => x.getStr?.toOption)
+  let embeds := ((Driver.fldOpt j "embeds").bind (fun a => a.getArr?.toOption)).getD #[] |>.toList.map declOfJson
+  .mk (own.map (fun n => ⟨n, .basic ""⟩)) embeds
 
 def handle (input : Json) : Except String Json := do
   let data ← Driver.fld input "data"
@@ -42,7 +49,16 @@ def handle (input : Json) : Except String Json := do
      Decl.values [Node.other [Node.funcLit ((strs "litTypes").map (fun n => Node.typeSpec n .interfaceType))]]]
   let found := discover (f.ifaces.map (fun i => (i.name, true))) (fileNodes decls)
   let declared := f.ifaces.map (fun i => Json.arr #[Json.str i.structName, Json.num (found.count i.name)])
-  if reasons.isEmpty then pure (Json.mkObj [("compiles", Json.bool true), ("declared", Json.arr declared.toArray)])
+  -- the method set of every interface, computed from its declaration tree as go/types does
+  let ifacesJ := ((Driver.fldOpt data "ifaces").bind (fun a => a.getArr?.toOption)).getD #[]
+  let methods := ifacesJ.toList.map (fun ij =>
+    let sn := (Driver.fldStr ij "structName").toOption.getD "?"
+    let names := match Driver.fldOpt ij "tree" with
+      | some t => (methodSet (declOfJson t)).map (fun (ms : MethodSig) => ms.name)
+      | none => []
+    Json.arr #[Json.str sn, Json.arr (names.map Json.str).toArray])
+  if reasons.isEmpty then pure (Json.mkObj [("compiles", Json.bool true), ("declared", Json.arr declared.toArray),
+    ("methods", Json.arr methods.toArray)])
   else pure (Json.mkObj [("unmodelled", Json.bool true), ("reasons", Json.arr (reasons.map Json.str).toArray)])
 
 end Driver.C01
